@@ -339,6 +339,8 @@ pub fn run(report: &Report, thorough: bool) -> Evidence {
                 }
                 // every third configuration: the context with the option on is a re-configured one
                 o_on.via_update = (idx % cfgs.len()) % 3 == 2;
+                // every third: its Config object has held the opposite value of every option before
+                o_on.churn = (idx % cfgs.len()) % 3 == 1;
                 let mut on = Ctx::new(&o_on).expect("ctx");
                 let mut off = Ctx::new(&o_off).expect("ctx");
                 on.with_pre = false;
